@@ -42,8 +42,8 @@ Example c09_witness_alo :
 Proof. vm_compute. reflexivity. Qed.
 
 (* StrictlyAtOnce, crash BETWEEN two operations (the fresh process sees the disk image and the
-   persisted positions of that moment = [reopen], as argued for C07), outside the known classes
-   (block-id drift, stale provisional tail position — see props/C06.v): for every topic the consumer
+   persisted positions of that moment = [reopen], as argued for C07), outside the known class
+   (block-id drift — see props/C06.v): for every topic the consumer
    resumes immediately behind the last entry whose consuming read had returned.  [g] is the ledger
    of the queue specification over the history so far: l_app = acknowledged appends of the topic,
    l_del = number of entries returned by its consuming reads.  After the restart the stream is l_app,
@@ -71,25 +71,25 @@ Theorem c09_strict_resumes_exactly : forall (c : Cfg) (be : backend) (ops1 ops2 
 Proof. exact crash_then_continue_strict. Qed.
 
 (* ANY mode — AtLeastOnce{n} in particular —, crash between two operations of a restart-free history,
-   outside the known classes: the persisted position is never AHEAD of the consumer (lagging position
-   invariant P3L, proofs/EngineP3L.v, along every history), so after the restart the stream is the
+   outside block-id drift: the persisted position is never AHEAD of the consumer (lagging position
+   invariant P3L / PL, proofs/EngineP3L.v, EngineALO2.v, along every history), so after the restart the stream is the
    acknowledged stream and what the consumer will be handed starts at position k <= l_del, i.e. at
    or before the first entry it had not been handed: entries may be delivered again, none is skipped.
    (The bound l_del - k <= persist_every for read_next-only histories is NOT proved.) *)
 Theorem c09_alo_never_skips_between_operations : forall (c : Cfg) (m : mode) (be : backend) (ops : list op),
   cfg_ok c -> Forall (op_ok c) ops ->
   N.of_nat (length (offered_all ops)) <= u64_max -> sum_len (offered_all ops) <= u64_max ->
-  restart_known c (exec (env_of c m be) init ops) = false ->
+  id_drift c (exec (env_of c m be) init ops) = false ->
   let s := exec (env_of c m be) init ops in
   let g := ledger_run [] (trace (env_of c m be) init ops) in
   forall t x,
     stream (get_ts (reopen c s) t) = l_app (lget g t) /\
     exists k, (k <= l_del (lget g t))%nat /\
               unread c (nrm x (get_ts (reopen c s) t)) = skipn k (l_app (lget g t)).
-Proof. exact crash_between_operations_never_skips. Qed.
+Proof. exact crash_between_operations_never_skips_nd. Qed.
 
 Example c09_witness_alo_outside_known :
-  restart_known small_cfg (exec (env_of small_cfg (ALO 3) Fd) init
+  id_drift small_cfg (exec (env_of small_cfg (ALO 3) Fd) init
      [OAppend tt (en 0 10); OAppend tt (en 1 10); OAppend tt (en 2 10); OAppend tt (en 3 10); OAppend tt (en 4 10);
       ORead tt true; ORead tt true; ORead tt true; ORead tt true]) = false.
 Proof. vm_compute. reflexivity. Qed.
@@ -113,7 +113,7 @@ Print Assumptions c09_strict_resumes_exactly.
 Check c09_alo_never_skips_between_operations : forall (c : Cfg) (m : mode) (be : backend) (ops : list op),
   cfg_ok c -> Forall (op_ok c) ops ->
   N.of_nat (length (offered_all ops)) <= u64_max -> sum_len (offered_all ops) <= u64_max ->
-  restart_known c (exec (env_of c m be) init ops) = false ->
+  id_drift c (exec (env_of c m be) init ops) = false ->
   let s := exec (env_of c m be) init ops in
   let g := ledger_run [] (trace (env_of c m be) init ops) in
   forall t x,
